@@ -846,7 +846,10 @@ class ConcreteContext:
         nz = sorted(abs(float(v)) for v in self.values.values() if v != 0 and abs(v) > Fraction(1, 10 ** 300))
         typ = nz[len(nz) // 2] if nz else 1.0
         self.ATOL0 = 1e-9 * min(1.0, typ)
-        self.ATOL = 1e-300
+        # replay of a solver counterexample: sharp (relative) comparison; cross-
+        # validation of a path witness: lenient (witnesses sit on 1e-16 style
+        # thresholds where float noise dominates)
+        self.ATOL = 1e-300 if (opts or {}).get('strict', True) else self.ATOL0
         self.opts = opts or {}
         self.claims = []
         self.notes = []
